@@ -1,6 +1,9 @@
 package gojq
 
-import "fmt"
+import (
+	"fmt"
+	"slices"
+)
 
 // CompilerOption is a compiler option.
 type CompilerOption func(*compiler)
@@ -61,6 +64,11 @@ func withFunction(name string, minarity, maxarity int, iter bool, f func(any, []
 		panic(fmt.Sprintf("invalid arity for %q: %d, %d", name, minarity, maxarity))
 	}
 	argcount := 1<<(maxarity+1) - 1<<minarity
+	// The interpreter reuses its argument buffer for the next call, while
+	// the function may keep the arguments (return them, read them lazily).
+	f = func(f func(any, []any) any) func(any, []any) any {
+		return func(x any, xs []any) any { return f(x, slices.Clone(xs)) }
+	}(f)
 	return func(c *compiler) {
 		if c.customFuncs == nil {
 			c.customFuncs = make(map[string]function)
